@@ -107,6 +107,9 @@ ValidN(ev) ==
           IN IF full THEN ev.conf = [s |-> 1, m |-> E18]
              ELSE Cmp(SSub(P18(ev.conf), P18(want)).m, E9) <= 0
        /\ RLe(RSub(c, [n |-> SNat(<<1>>), d |-> E12]), [n |-> P18(ev.conf), d |-> E18])
+       \* a band whose upper end was lowered (Ambiguous) was accepted by comparing its content with the level: the reported
+       \* Confidence is then at least c EXACTLY (1e-18: the 18 logged digits), not merely to rounding
+       /\ ev.amb = 1 => RLe(RSub(c, [n |-> SNat(<<1>>), d |-> E18]), [n |-> P18(ev.conf), d |-> E18])
 
 Ev(e) == l <= Len(Trace) /\ Trace[l].op = e /\ l' = l + 1
 SetDist == /\ Ev("SetDist") /\ n' = Trace[l].n
